@@ -16,7 +16,8 @@ RULE = ("cases: (a) per flavour the opcode/mnemonic tables built by Flavour.__in
         "(c) header sweeps (app ids, version bytes); (d) random instruction sequences of length 0..64 mixing all "
         "classes. Each is encoded with bytes(Subroutine) and decoded with deserialize(.., flavour). A case is "
         "non-trivial when it encodes at least one instruction with at least one operand; distinct = distinct case "
-        "descriptions (hash of canonical JSON).")
+        "descriptions (hash of canonical JSON)."
+        ' After every round trip the decoded instructions are edited in place (as the NV transpiler edits what it is handed) and the unchanged bytes are decoded again with both decoders; an operand of the encoded Subroutine is edited in place (same instruction count) and it is encoded again. ')
 ASSUMPTIONS = [
     "operand values are sampled at boundaries and at random for 32-bit fields, enumerated for registers and 8-bit immediates",
     "instruction classes are discovered from the working tree (CORE_INSTRUCTIONS + flavour.instrs); classes defined but registered in no flavour are only reported",
